@@ -1151,6 +1151,34 @@ fn text_pair(ctx: &mut Ctx, c: &TextCfg, old: &[u8], new: &[u8], idx: u64) {
             ctx.violation("C20", &req, format!("[u8] input gives different ops: {}", proto::show_ops(&b.ops)));
         }
     }
+    // a USER-DEFINED text type with a lawful but coarse `Hash` (suites/custom_str.rs): the text diff must be the one of the
+    // same bytes as `[u8]` -- tokens are identified by `==`, never by their hash
+    if let Some(b) = &eb {
+        let (o, n) = (super::custom_str::CStr::new(old), super::custom_str::CStr::new(new));
+        let got = catch_unwind(AssertUnwindSafe(|| {
+            let diff = build_diff(c, DlHow::Deadline, None, o, n);
+            let all: Vec<Chg> = diff.iter_all_changes().map(|ch| conv_change(ch)).collect();
+            (diff.ops().to_vec(), all)
+        }));
+        ctx.count("text.custom_type_runs");
+        if c.dl.is_none() {
+            let req = text_request(c, Mode::Bytes, old, new);
+            match got {
+                Err(_) => ctx.violation("C04", &req, "the text diff over a user-defined DiffableStr type panicked".to_string()),
+                Ok((ops, all)) => {
+                    if let Err(e) = check_changes(&all, old, new) {
+                        ctx.violation("C04", &req, format!("text diff over a user-defined DiffableStr type (coarse Hash): {}", e));
+                    }
+                    if ops != b.ops {
+                        let msg = format!("the text diff over a user-defined DiffableStr type whose Hash is coarser than its Eq gives other ops ({}) than the same bytes as [u8]: tokens are told apart by something else than ==", proto::show_ops(&ops));
+                        ctx.violation("C20", &req, msg.clone());
+                        ctx.violation("C14", &req, msg.clone());
+                        ctx.violation("C02", &req, msg);
+                    }
+                }
+            }
+        }
+    }
     // C20: repeated run, fresh thread
     let mode = if valid && (gate / 3) % 2 == 0 { Mode::Str } else { Mode::Bytes };
     let base = if mode == Mode::Str { &es } else { &eb };
